@@ -1,6 +1,8 @@
 // drv_kernels_block.cpp -- C07 for BLOCK and COMPLEX value types: the builtin backend primitives of amgcl
 // instantiated with
 //   value_type = amgcl::static_matrix<vq::Q,b,b>, rhs_type = amgcl::static_matrix<vq::Q,b,1>, b = 2, 3   (ops "bk.*")
+//   value_type = amgcl::static_matrix<double,b,b> on small dyadic rationals (every operation exact in binary64), with
+//                "nan"/"inf" junk tokens in outputs that must be overwritten                                (ops "bkd.*")
 //   value_type = std::complex<double> on small dyadic Gaussian rationals (exact + - *)                     (ops "cx.*")
 // Model side: ocaml/kernels/ops_kernels_block.ml runs the SAME extracted models (Kernels.v) at the Scalar instances
 // BlockInst.BlockS QcS b / ComplexInst.ComplexS QcS (plus BlockKernels.v for the inner products of block entries).
@@ -33,15 +35,15 @@ using vq::Q; using vq::Tok;
 namespace be = amgcl::backend;
 
 // ------------------------------------------------------------------------------------------------ blocks
-template <int N> struct BK {
-    typedef amgcl::static_matrix<Q, N, N> V;
-    typedef amgcl::static_matrix<Q, N, 1> R;
+template <class T, int N> struct BK {
+    typedef amgcl::static_matrix<T, N, N> V;
+    typedef amgcl::static_matrix<T, N, 1> R;
     typedef amgcl::backend::crs<V, ptrdiff_t, ptrdiff_t> M;
     typedef std::vector<R> BV;      // block vector
-    typedef std::vector<Q> SV;      // scalar vector holding the same numbers
+    typedef std::vector<T> SV;      // scalar vector holding the same numbers
     typedef std::vector<V> MV;      // vector of blocks
 
-    static V blk(Tok &t) { V v; for (int k = 0; k < N * N; ++k) v(k) = t.q(); return v; }
+    static V blk(Tok &t) { V v; for (int k = 0; k < N * N; ++k) v(k) = t.val<T>(); return v; }
     static std::shared_ptr<M> bcrs(Tok &t) {
         long n = t.i(), m = t.i();
         std::vector<ptrdiff_t> ptr(1, 0), col; std::vector<V> vl;
@@ -58,22 +60,22 @@ template <int N> struct BK {
         for (size_t e = 0; e < col.size(); ++e) { A->col[e] = col[e]; A->val[e] = vl[e]; }
         return A;
     }
-    static void pv(Tok &t, BV &v) { long n = t.i(); v.resize(n); for (long i = 0; i < n; ++i) for (int k = 0; k < N; ++k) v[i](k) = t.q(); }
-    static void pv(Tok &t, SV &v) { long n = t.i(); v.resize(n * N); for (long i = 0; i < n * N; ++i) v[i] = t.q(); }
+    static void pv(Tok &t, BV &v) { long n = t.i(); v.resize(n); for (long i = 0; i < n; ++i) for (int k = 0; k < N; ++k) v[i](k) = t.val<T>(); }
+    static void pv(Tok &t, SV &v) { long n = t.i(); v.resize(n * N); for (long i = 0; i < n * N; ++i) v[i] = t.val<T>(); }
     static void pv(Tok &t, MV &v) { long n = t.i(); v.resize(n); for (long i = 0; i < n; ++i) v[i] = blk(t); }
     static std::string show(const BV &v) {
         std::ostringstream os; os << "[";
-        for (size_t i = 0; i < v.size(); ++i) for (int k = 0; k < N; ++k) { if (i || k) os << " "; os << v[i](k).str(); }
+        for (size_t i = 0; i < v.size(); ++i) for (int k = 0; k < N; ++k) { if (i || k) os << " "; os << vq::show(v[i](k)); }
         os << "]"; return os.str();
     }
     static std::string show(const SV &v) { return vq::show(v); }
     static std::string show(const MV &v) {
         std::ostringstream os; os << "[";
-        for (size_t i = 0; i < v.size(); ++i) for (int k = 0; k < N * N; ++k) { if (i || k) os << " "; os << v[i](k).str(); }
+        for (size_t i = 0; i < v.size(); ++i) for (int k = 0; k < N * N; ++k) { if (i || k) os << " "; os << vq::show(v[i](k)); }
         os << "]"; return os.str();
     }
     // coefficient kinds
-    struct CS { typedef Q type; static Q get(Tok &t) { return t.q(); } };
+    struct CS { typedef T type; static T get(Tok &t) { return t.val<T>(); } };
     struct CM { typedef V type; static V get(Tok &t) { return blk(t); } };
 
     // ---- dispatch helpers: F has  template <class...> static std::string run(Tok&)
@@ -154,7 +156,7 @@ template <int N> struct BK {
     static std::string vmul_mm(Tok &t) { std::string k = t.s(); return coef2< VmulF<MV, MV> >(k, t); }
     static std::string copy(Tok &t) { BV x, y; pv(t, x); pv(t, y); be::copy(x, y); return show(y); }
     static std::string clear(Tok &t) { BV x; pv(t, x); be::clear(x); return show(x); }
-    static std::string inner(Tok &t) { BV x, y; pv(t, x); pv(t, y); Q r = be::inner_product(x, y); return vq::show(r); }
+    static std::string inner(Tok &t) { BV x, y; pv(t, x); pv(t, y); T r = be::inner_product(x, y); return vq::show(r); }
     static std::string inner_mm(Tok &t) { MV x, y; pv(t, x); pv(t, y); V r = be::inner_product(x, y); return show(MV(1, r)); }
     struct LinCombF {
         template <class CC, class CA> static std::string run(Tok &t) {
@@ -167,13 +169,16 @@ template <int N> struct BK {
     static std::string lin_comb(Tok &t) { std::string k = t.s(); return coef2<LinCombF>(k, t); }
     static std::string mul(Tok &t) { V a = blk(t); V c = blk(t); V r = a * c; return show(MV(1, r)); }
     static std::string adjoint(Tok &t) { V a = blk(t); V r = amgcl::math::adjoint(a); return show(MV(1, r)); }
-    static std::string norm(Tok &t) { V a = blk(t); Q r = amgcl::math::norm(a); return vq::show(r); }
+    static std::string norm(Tok &t) { V a = blk(t); T r = amgcl::math::norm(a); return vq::show(r); }
 };
 
 #define BOP(name) \
     static std::string bop_##name(vq::Tok &t) { long b = t.i(); \
-        if (b == 2) return BK<2>::name(t); if (b == 3) return BK<3>::name(t); return "UNSUPPORTED-BLOCK-SIZE"; } \
-    static vq::Reg breg_##name("bk." #name, bop_##name);
+        if (b == 2) return BK<Q, 2>::name(t); if (b == 3) return BK<Q, 3>::name(t); return "UNSUPPORTED-BLOCK-SIZE"; } \
+    static vq::Reg breg_##name("bk." #name, bop_##name); \
+    static std::string bopd_##name(vq::Tok &t) { long b = t.i(); \
+        if (b == 2) return BK<double, 2>::name(t); if (b == 3) return BK<double, 3>::name(t); return "UNSUPPORTED-BLOCK-SIZE"; } \
+    static vq::Reg bregd_##name("bkd." #name, bopd_##name);
 BOP(spmv) BOP(residual) BOP(axpby) BOP(axpbypcz) BOP(vmul) BOP(vmul_mm) BOP(copy) BOP(clear) BOP(inner) BOP(inner_mm)
 BOP(lin_comb) BOP(mul) BOP(adjoint) BOP(norm)
 
